@@ -14,7 +14,7 @@ import (
 )
 
 var profile = gen.Profile{
-	MinSteps: 4, MaxSteps: 26, Limits: []int{1, 2, 3, 4, 32, 32},
+	MinSteps: 4, MaxSteps: 26, Limits: []int{32},
 	PNote: 55, PGate: 75, PInvalid: 6, PUnknown: 6, PBatch: 40, MaxBatch: 4,
 	PCancel: 5, PBurst: 40, PObey: 30, Builtins: true, Pins: true,
 	Outcomes:      []string{"ok", "ok", "err:-32000", "ctxerr"},
@@ -25,14 +25,14 @@ var profile = gen.Profile{
 func genCase(t *rapid.T) sim.Scenario { return gen.ServerScenario(t, profile) }
 
 func run(t *testing.T, sc sim.Scenario) engine.Verdict {
-	return oracle.RunServer(t, sc, []string{"C03/", "C01/reply-missing-at-quiescence", "C01/handler-not-run"}, func(f oracle.Facts) bool {
+	return oracle.RunServer(t, sc, []string{"C03/"}, func(f oracle.Facts) bool {
 		return f.BarrierExercised
 	})
 }
 
 var parts = []engine.AnyPart{
 	engine.Part[sim.Scenario]{Name: "scenarios", Run: run, Gen: genCase,
-		Rule: "rapid-generated scripts biased to notifications with parked handlers followed by further records (calls, notifications, batches) while they are parked, with concurrent CancelRequest, Concurrency 1-4 and 32, hook delays on barrier/dispatch/invoke sites; safety (exit(notification) < enter(later request)) is checked on the logical clock of the handler log, bounded liveness (all requests of the oldest undispatched record start once no earlier notification is unfinished and a slot is free; a parked call does not hold back later records) at every quiescent point; non-trivial = a notification was parked at a moment when a later record had already been received; distinct = hash of the scenario"},
+		Rule: "rapid-generated scripts biased to notifications with parked handlers followed by further records (calls, notifications, batches) while they are parked, with concurrent CancelRequest, a concurrency limit far above the load (the limit itself is the subject of C06), hook delays on barrier/dispatch/invoke sites; safety (exit(notification) < enter(later request)) is checked on the logical clock of the handler log, bounded liveness (all requests of the oldest undispatched record start once no earlier notification is unfinished and a slot is free; a parked call does not hold back later records) at every quiescent point; non-trivial = a notification was parked at a moment when a later record had already been received; distinct = hash of the scenario"},
 }
 
 func TestProp(t *testing.T)   { engine.RunParts(t, "C03", parts) }
